@@ -14,10 +14,16 @@ mnemonic of the encoding):
          ORN |~, BIC &~, MOV op2, MVN ~op2, shifts Shift_C(Rm, type, amount, C) - with op2 =
          imm32 or Shift(_C)(Rm, shift_t, shift_n | Rs[7:0], C); N := result[31], Z := result == 0,
          C := AWC carry (arithmetic) / shifter or immediate carry (logical), V := AWC overflow.
+  C01-O  every operand read precedes every register write (also the soundness condition of C01-V's distinct-index harness).
   C01-S  setflags dominance: flag writes of non-compare forms are dominated by self.setflags.
   C01-P  PC destination: where the decode layer lets d be 15, R[d] is written only on the
          d != 15 side and the d == 15 side performs exactly alu_write_pc(result), no flags.
   C01-W  width of results (C10-W re-evaluated on these classes).
+  C01-V  value: every body interpreted in the bit-vector domain (sa/opexec.py) with symbolic operands, immediate,
+         shifter carry, CPSR and setflags, and R[d], N, Z, C, V compared bit for bit with the pseudocode reference
+         (sa/dprefs.py: ripple-carry AddWithCarry, per-amount Shift_C wiring); where a register operand goes through the
+         shifter, the shifter application is checked argument by argument and its result is a shared symbol pair
+         (compositional; the shifter itself is C01-H).  d == 15 is C01-P.
   C01-H  AddWithCarry, Shift_C (all types, every amount incl. carry-out) and the expand-immediate
          helpers are bit-exact (C17-A re-evaluated here: the role table is stated in their terms).
 """
@@ -269,6 +275,11 @@ def check_class(run, repo, eff, fr, ci, mns, encs):
         for e in flag[f]:
             if not compare and not guard_has(e.guards, lambda t: t == ('field', 'setflags'), True):
                 bad('C01-S', 'flag %s without setflags' % f, 'CPSR.%s is written on a path not dominated by self.setflags' % f.upper())
+    # ---- O: operands are read before anything is written (Rd == Rn / Rm / Rs reads the old value) ----
+    from ..flow import stale_reads
+    for e, w in stale_reads(tr)[:1]:
+        bad('C01-O', 'read of R[%s] after write of R[%s]' % (fmt(e.d['idx']), fmt(w.d['idx'])),
+            'an operand register is read after the destination was written: with Rd == R%s the new value is used' % fmt(e.d['idx']))
     # ---- P ----
     if not compare:
         d15 = 'd' in fields and fr.feasible(ci.name, {'d': 15})
@@ -303,6 +314,23 @@ def main(repo_path, tier, seed, replay=None):
     for name, (ci, mns, encs) in sorted(classes.items()):
         check_class(run, repo, eff, fr, ci, mns, encs)
     run.floor('data-processing opcode classes', len(classes), 66)
+    # V: bit-exact value comparison with the pseudocode reference (M7); the shifter enters as a shared symbol pair whose
+    # arguments are compared (compositional: Shift_C itself is C01-H / C17-A)
+    from .. import dprefs
+    from . import c09
+    nv = 0
+    for name, (ci, mns, encs) in sorted(classes.items()):
+        if len(mns) != 1:
+            continue
+        mn = sorted(mns)[0]
+        fields = init_fields(ci)
+        top, extra = dprefs.harness_options(name, mn, fields)
+        before = len(run.findings)
+        nob, vok = c09.check_variant(run, repo, fr, ci, dprefs.dp_model(mn, fields), {}, None, rule='C01-V', top_roles=top,
+                                     extra_words=extra, abstract_shift=dprefs.wants_abstract_shift(mn, fields))
+        nv += 1
+        run.instance('C01-V', name, obligations=nob, ok=vok, sample={'class': name, 'mnemonic': mn})
+    run.floor('data-processing classes compared bit for bit', nv, 66)
     # W: widths on these classes
     sub = Run('tmp')
     c10.check_widths(sub, repo, eff, fr, fa, rule='C01-W', select=None)
@@ -323,7 +351,7 @@ def main(repo_path, tier, seed, replay=None):
     from . import c17_arith
     sub = Run('tmp')
     c17_arith.check_arith(sub, repo)
-    used = ('add_with_carry', 'shift_c', 'lsl_c', 'lsr_c', 'asr_c', 'ror_c', 'arm_expand_imm_c', 'thumb_expand_imm_c')
+    used = ('add_with_carry', 'shift_c', 'shift', 'arm_expand_imm', 'thumb_expand_imm', 'lsl_c', 'lsr_c', 'asr_c', 'ror_c', 'arm_expand_imm_c', 'thumb_expand_imm_c')
     hb = [f for f in sub.findings if f.func in used]
     for f in hb:
         run.violation('C01-H', f.file, f.func, f.construct, f.message, f.detail)
@@ -350,6 +378,7 @@ def main(repo_path, tier, seed, replay=None):
         'C01: each of the data-processing execute() bodies is reduced to an effect trace with normalised value terms and compared '
         'with the role table of its instruction (which operand is inverted, which carry-in, which helper result feeds which flag), '
         'plus frame, setflags dominance, the joint PC-destination rule against the decode model, guard and width rules, and the helpers '
-        'themselves (AddWithCarry, Shift_C, expand-immediate) are compared bit for bit with gate-level references. These hold '
+        'themselves (AddWithCarry, Shift_C, expand-immediate) are compared bit for bit with gate-level references; C01-V compares the '
+        'final R[d] and NZCV of every body bit for bit with a pseudocode reference for all operand values at once. These hold '
         'for every operand value, flag state, shift amount and mode because they are properties of all paths of the loop-free body.',
         './check C01 --tier %s' % tier)
